@@ -297,3 +297,5 @@ def run(ctx, rep):
     C17.partition_guard_rules(F, _ok, rep, "C03")
     frame_number_reader_rules(F, rep, "C03")
     midside_parity_rules(F, rep, "C03")
+    from rules import C05 as _C05
+    compose(ctx, rep, "C05", "C03.valid", r"^C05\.(short|eof)$")
